@@ -57,6 +57,42 @@ CHECKS = {
             "writes exactly one PUBREL with its own id, waits on the channel of its own id, leaves every other task "
             "and channel untouched, and completes on its own PUBCOMP; one recorded leniency (PUBCOMP before PUBREL is "
             "accepted). Tied to the real sink by QoS 2 orderings and random operation lists.", "section 5, C14"),
+    "C03": ("Coq theorems (Props/C03.v, 12) on the protocol-decision layer of an executable model of the v3/v5 "
+            "server and client dispatchers (Model/Inbound.v), for all states and packets: the handler invocation carries "
+            "the packet's fields, exactly one handler record per accepted PUBLISH, no acknowledgement while the handler "
+            "is parked, the acknowledgement matches the QoS (nothing / PUBACK / PUBREC), PUBCOMP(0) only for a PUBREL "
+            "that reached the protocol service, a failing handler never yields a success acknowledgement and stops the "
+            "connection; one refutation is a recorded finding (client, unrouted QoS 2). Model tied to real servers and "
+            "clients by 4.5*10^4 peer-packet/completion sequences per quick run plus peer's-view scans. Partial: "
+            "exactly-one-ack on the wire over whole runs is carried by the correspondence run, not by a run invariant.",
+            "section 5, C03"),
+    "C11": ("Coq theorems (Props/C11.v, 23), all states and packets: a packet whose id is in use is never delivered "
+            "(v3: protocol error, v5: answered 0x91) and changes no protocol state; an id stays reserved across every "
+            "other exchange's packets and completions and is free again exactly after its final acknowledgement "
+            "(PUBACK / SUBACK / UNSUBACK / PUBCOMP / negative PUBREC); PUBREL is accepted only for ids whose positive "
+            "PUBREC was produced, stray PUBREL refused. Tied to real endpoints by id histories over three ids and the "
+            "id-life-cycle scans P3/P10/P11.", "section 5, C11"),
+    "C15": ("Coq theorems (Props/C15.v, 24): over every operation list of the full operational model at most one "
+            "DISCONNECT is on the wire, at most one Stop is delivered, every v5 DISCONNECT the endpoint writes for an "
+            "error has reason >= 0x80, none after the peer's, nothing after its own (io closed); every emission site "
+            "tests and sets the flag; dedicated codes for QoS / receive maximum / unknown alias proved on the decision "
+            "layer, the whole SpecViolation -> reason table and from_proto_error table translated from the source and "
+            "proved equal to the MQTT 5 table. One refutation recorded (service-supplied DISCONNECT never reaches the "
+            "wire). Tied to real v5 endpoints by initiator sequences and scans P5/P12.", "section 5, C15"),
+    "C16": ("Coq theorems (Props/C16.v, 5): every well-formed packet in every state is handed to the application, "
+            "answered, ends the connection with a protocol error (reason >= 0x80, Stop kind Protocol) or is one of the "
+            "listed ignored cases; an undecodable packet stops the dispatcher; at most one Stop over every run. The "
+            "no-panic half is carried by total models (no panic outcome reachable in the decision layer), by the sink "
+            "theorems for acknowledgements, and by runs against real endpoints incl. busy sinks. Partial: the response "
+            "queue index panic flag of the operational model is not proved unreachable (C04's history invariant is "
+            "not lifted to it); hangs inside ntex are observed only.", "section 5, C16"),
+    "C17": ("Coq theorems (Props/C17.v, 13): an alias-only PUBLISH is delivered with the topic most recently bound "
+            "to that alias on this connection, a PUBLISH with topic and alias rebinds exactly that alias, nothing else "
+            "changes the table, unbound aliases are never delivered (0x94 once earlier checks pass), aliases over the "
+            "maximum are neither delivered nor recorded, two connections' tables never influence each other (any "
+            "interleaving = the two separate runs), client-side routing depends only on the resolved topic. Tied to "
+            "real v5 servers/clients by alias sequences and scan P9. Partial: the server-side v5::Router cache is not "
+            "modelled.", "section 5, C17"),
     "C04": ("Coq theorem over all well-formed histories and every wrapping base value: what the response queue has "
             "written is exactly the responses of the longest completed prefix of requests in arrival order (none "
             "lost, none duplicated, none out of order); after a handler error still a prefix. The model of "
@@ -86,8 +122,9 @@ CHECKS = {
             "<= max_receive_size + last packet, chunks of a streamed publish bypass the limit and the final chunk "
             "ends the bypass, no lost wake-up (paused + available => woken), progress, no panic; plus the "
             "refutation witnesses of the pre-fix tree (spawned calls counted late). Model tied to the real "
-            "InFlightServiceImpl by 5*10^5 exhaustive/random op sequences per quick run. The v5 receive-maximum half "
-            "is carried by the inbound model.", "section 5, C12"),
+            "InFlightServiceImpl by 5*10^5 exhaustive/random op sequences per quick run. MQTT 5 half (Props/C12v5.v, 5): "
+            "over quota -> 0x93, within quota never refused for that reason, the quota counts unacknowledged QoS>0 "
+            "publishes only; tied to real v5 endpoints by receive-maximum bursts and scan P13.", "section 5, C12"),
     "C19": ("Coq theorems (Props/C19.v, 18): gate (handlers only after CONNECT + accepting answer, for any bytes and "
             "fragmentation), non-CONNECT first packet ends, refusal = CONNACK then close, routing of the combined "
             "server = sniffer result for every fragmentation, keep-alive factor in u16 arithmetic, cap = min rule, "
@@ -127,7 +164,7 @@ def main():
                     for n, p, t in ENGINES],
         "checks": [],
         "not_applicable": [],
-        "notes": "properties are added as their checks turn green; see DESIGN.md",
+        "notes": "all 20 properties are claimed; partial parts are named in each level_claimed.text and in the evidence (coverage.partial); see DESIGN.md sections 10-12",
     }
     props = [json.loads(l)["id"] for l in open(os.path.join(ROOT, "properties.jsonl")) if l.strip()]
     for pid in props:
